@@ -73,6 +73,33 @@ CHECKS = {
             'operation of generated histories that are biased to change indexed attributes.',
             'The scan uses the index key functions of the table itself; unique-key collisions on update are not generated.',
             'DESIGN.md section 2 C11'),
+    'C15': ('complete enumeration of both random draws for both parameter sets (module random/time replaced by '
+            'enumerating stand-ins) with an arithmetic envelope oracle; real send loop on a virtual clock; loop-back '
+            'suppression through the real read-queue loop',
+            'All 201 402 (parameter set, initial delay, first gap) outcomes are enumerated and the queued send times '
+            'are checked against the envelope; a sample is also run through the real _run_send loop with a fake selector '
+            'and socket on a virtual clock; own message ids are fed back through _run_q_read.',
+            'The enumeration ranges are read from the parameter objects; randomness and time are taken from the module '
+            'level random / time objects.',
+            'DESIGN.md section 2 C15'),
+    'C16': ('hypothesis generated locations and foreign scope strings; round-trip oracle, containment laws against '
+            'generalised / differing locations on the scope a ProviderMdib publishes, totality and differential '
+            'filtering oracle',
+            'Locations over all present/absent element combinations with reserved and non-ASCII characters are '
+            'round-tripped through scope strings; the scope published by mk_scopes after set_location is tested against '
+            'every generalisation and against locations differing in one element; filter_services_inside is run on '
+            'services with arbitrary foreign scopes and must neither raise nor miss/invent matches.',
+            'Empty strings are not used as element values (documented as absent).',
+            'DESIGN.md section 2 C16'),
+    'C17': ('hypothesis generated bodies / chunk sizes / coding sets / Accept-Encoding headers driven through the real '
+            'SoapClient and the real request handler over in-memory sockets; round-trip, independent chunk parser and '
+            'negotiation oracles',
+            'Request and response paths run end to end in memory (client encode+chunk, handler dechunk+decode, handler '
+            'encode+chunk, client decode); the bytes on the wire are parsed with an independent RFC 7230 chunk parser; '
+            'the coding on the wire must be one the peer accepted with q>0 and that is enabled locally; corrupt or '
+            'unsupported codings must not reach the component as different bytes.',
+            'Malformed q values count as unspecified; undetectable corruption of lz4 frames (no checksum) is not generated.',
+            'DESIGN.md section 2 C17'),
 }
 
 NOT_YET = {}
